@@ -71,6 +71,10 @@ class Campaign:
         res = self.execute(sc)
         m = match.Matcher(sc, res, coarse=self.coarse)
         findings = m.run(stop_at_first=False)
+        if getattr(m.ref, "ambiguous", False):
+            # rtc=False and a failing group that also holds a sending / raising sibling: the outcome
+            # depends on the (unspecified) order inside the group, so the run is not judged
+            return {"violations": [], "unarmed": ["ambiguous"], "mstats": m.stats, "res": res}
         viol, unarmed = self.classify(sc, res, findings)
         if not viol:
             viol.extend(self.extra_checks(sc, res, m, unarmed))
